@@ -203,7 +203,11 @@ impl Prop for C14 {
         let exe = std::env::current_exe().map_err(|e| e.to_string())?;
         let spread: Vec<&Vec<u8>> = ss.iter().step_by((ss.len() / 6).max(1)).collect();
         for s in &spread {
-            let o = std::process::Command::new(&exe).args(["--worker", "seeded", &hex(s)]).output().map_err(|e| e.to_string())?;
+            // the seed goes through a file: it can be longer than an argument list allows
+            let sf = ctx.scratch().join(format!("c14-seed-{}.hex", std::process::id()));
+            std::fs::write(&sf, hex(s)).map_err(|e| e.to_string())?;
+            let o = std::process::Command::new(&exe).args(["--worker", "seeded", sf.to_str().unwrap()]).output().map_err(|e| e.to_string())?;
+            let _ = std::fs::remove_file(&sf);
             let line = String::from_utf8_lossy(&o.stdout).trim().to_string();
             let ((rs, rc), _) = ref_seeded(s);
             if line != hex(&[codec::fr(&rs), codec::fr(&rc)].concat()) {
@@ -241,8 +245,8 @@ impl Prop for C14 {
 }
 
 /// `zkv --worker seeded <hex>`: prints secret|commitment of the seeded identity
-pub fn worker_seeded(hexseed: &str) -> i32 {
-    let seed = unhex(hexseed);
+pub fn worker_seeded(seed_file: &str) -> i32 {
+    let seed = match std::fs::read_to_string(seed_file) { Ok(h) => unhex(h.trim()), Err(_) => return 3 };
     let (s, c) = seeded_keygen(&seed);
     println!("{}", hex(&[codec::fr(&from_fr(&s)), codec::fr(&from_fr(&c))].concat()));
     0
